@@ -48,7 +48,7 @@ def _env(schema):
     alias = {"doc": "doc", "p": "paragraph", "bq": "blockquote", "hr": "horizontal_rule", "pre": "code_block",
              "br": "hard_break", "ul": "bullet_list", "ol": "ordered_list", "li": "list_item", "iso": "iso",
              "table": "table", "row": "row", "cell": "cell", "title": "title", "body": "body", "fa": "a", "fb": "b",
-             "blk": "block", "plain": "plain", "nomark": "nomark", "pic": "img"}
+             "blk": "block", "plain": "plain", "nomark": "nomark", "pic": "img", "sec": "sec"}
     for k, t in alias.items():
         if t in nodes:
             e[k] = block(t)
@@ -96,6 +96,7 @@ LIST_DOCS = [
     'doc(bq(ul(li(p("a")))), p("b", br(), "c"))',
     'doc(p(strong("a"), em(strong("b")), em("c")), p(a("u")("d"), a("v")("e")))',
     'doc(pre(U + "\\nx\\r\\ny"), p("a\\nb"))',
+    'doc(pre("c"), p(em("d"), "e"), p("f"))',
 ]
 BASIC_DOCS = [
     'doc(p("ab"), bq(p("c")))',
@@ -120,6 +121,7 @@ FIXED_DOCS = [
 DOCMARKS_DOCS = [
     'doc(p("hey", marks=em(p())[0].marks), p("ok"))',
     'doc(bq(p("a")), p(em("b")))',
+    'doc(p("a", marks=a("foo")(p())[0].marks), p("b"))',
 ]
 ISO_DOCS = [
     'doc(p("one"), iso(p("two")), p("x"))',
@@ -143,7 +145,11 @@ NI_DOCS = [
     'doc(p(a()(comment("ab")), "c"), p(em(a()(comment("d")))))',
     'doc(p("x", a()(comment("y"))), p(comment("z"), a()("w")))',
 ]
-DOCS = {"ni": NI_DOCS, "list": LIST_DOCS, "basic": BASIC_DOCS, "strict": STRICT_DOCS, "title": TITLE_DOCS, "fixed": FIXED_DOCS,
+CX_DOCS = [
+    'doc(p("a"), p(em("b"), br()), sec(h1("h"), h2("i"), p("c"), hr()), sec())',
+    'doc(h1("t"), sec(hr(), hr()))',
+]
+DOCS = {"cx": CX_DOCS, "ni": NI_DOCS, "list": LIST_DOCS, "basic": BASIC_DOCS, "strict": STRICT_DOCS, "title": TITLE_DOCS, "fixed": FIXED_DOCS,
         "docmarks": DOCMARKS_DOCS, "iso": ISO_DOCS, "table": TABLE_DOCS}
 _PAIR = {"mx1": ("m1", "m3"), "mx2": ("m1", "m2"), "mx3": ("m1", "m2"), "mx4": ("m1", "m2"), "mx5": ("m0", "m3"), "mx6": ("m0", "m1")}
 for _n, (_x, _y) in _PAIR.items():
@@ -152,6 +158,7 @@ for _n, (_x, _y) in _PAIR.items():
                 'doc(p(%s("ab"), %s("c")), p(%s(pic())))' % (_x, _y, _x),
                 'doc(p(m1("a")), plain(m1("b")), p(m1("c"), "d"))',
                 'doc(p(m3("a")), plain(m3("b"), "e"), p(m3("c")))']
+DOCS["mx1"] = DOCS["mx1"] + ['doc(p(m2i(1)(m2i(2)("ab")), m2i(1)("c"), "d"))']
 
 # slices: (source template expression, from, to) - cut with the oracle-checked Node.slice
 SLICES = {
@@ -169,11 +176,15 @@ SLICES = {
         ('doc(p(), p())', 1, 3),                      # zero-size content? ("</p><p>")
         ('doc(hr(), p("a"))', 0, 1),                  # leaf block
         ('doc(h1("a" + U))', 1, 4),                   # astral
+        ('doc(h2("XYZ"))', 2, 3, True),               # open on both sides inside ONE node whose markup differs
+        ('doc(bq(h1("Q")))', 2, 3, True),             # the same, two levels deep
     ],
 }
 SLICES["basic"] = [s for s in SLICES["list"] if "ul(" not in s[0]]
 SLICES["docmarks"] = SLICES["list"]
 SLICES["ni"] = SLICES["list"]
+SLICES["cx"] = [('doc(p("xy"))', 1, 3), ('doc(p("xy"))', 0, 4), ('doc(h1("h"))', 0, 3), ('doc(p("a"), sec(hr()))', 3, 6),
+                ('doc(p("a"), sec(h1("h"), p("c")))', 3, 10), ('doc(p("a"), p("b"))', 2, 5)]
 SLICES["iso"] = SLICES["list"] + [('doc(iso(p("i")))', 0, 5), ('doc(iso(p("i")), p("j"))', 2, 7), ('doc(iso(p("i")))', 1, 4)]
 SLICES["table"] = SLICES["list"] + [('doc(table(row(cell(p("i")), cell(p("j")))))', 3, 12),
                                     ('doc(table(row(cell(p("i")))))', 0, 9), ('doc(table(row(cell(p("i")))))', 2, 7)]
@@ -200,5 +211,6 @@ def nslices(schema_name):
 
 def slice_(schema_name, i):
     from prosemirror.model import Slice
-    src, a, b = SLICES[schema_name][i]
-    return build(schema_name, src).slice(a, b)
+    entry = SLICES[schema_name][i]
+    src, a, b = entry[:3]
+    return build(schema_name, src).slice(a, b, bool(entry[3]) if len(entry) > 3 else False)
